@@ -39,7 +39,13 @@
 //!             a decision handed out before a restart must be the decision after it.
 //!  burst    : part of the threaded mode: duplicates of one PREPARE and its ABORT released by a
 //!             barrier on one participant, then a second transaction commits on the same key and
-//!             the first abort is delivered again.
+//!             the first abort is delivered again. Further burst parts: duplicates of a PREPARE
+//!             during the COMMIT of the same transaction; the PREPARE of another transaction
+//!             during a COMMIT; and the rollback of an aborted transaction T1 on a shard (ABORT,
+//!             duplicate ABORTs, the stale sweep) at the same moment as the re-delivered PREPARE
+//!             and the COMMIT of a transaction T2 that overlaps T1 on keys of that shard and also
+//!             commits on a second shard — T2's writes must survive on both shards, every other
+//!             key of T1 must be its pre-image.
 //!
 //! Oracle, clause by clause of the statement (nothing else is demanded):
 //!  (a) the decision events of one transaction (`commit` Ok, `abort` Ok, listed by
@@ -1795,6 +1801,282 @@ fn burst_other_prepare_case(case_seed: u64, rep: &mut Report) {
     rep.eval(case_seed ^ 0xC0C, committed > 0);
 }
 
+/// The rollback of an aborted transaction T1 handled by a participant at the same moment as the
+/// messages of a second transaction T2 that overlaps T1 on keys of that shard. Two shards: T1 is
+/// prepared on both (many keys with fat pre-images on shard 0, so that rolling it back takes a
+/// while; the keys exist before, do not exist, or are mixed); T2 is prepared on shard 1, its
+/// PREPARE for shard 0 (1-3 of T1's keys: the first, the last or random ones; puts and deletes) was
+/// refused while T1 held the keys and is re-delivered until shard 0 grants it; then every shard
+/// has voted yes, T2's decision is COMMIT and both shards handle the COMMIT at once. The rollback
+/// of T1 on shard 0 runs meanwhile on another thread: ABORT(T1), two duplicates of ABORT(T1), or
+/// the participant's stale sweep followed by the ABORT. Oracle at quiescence (after one more
+/// delivery of ABORT(T1)): clause (c') every key T2 wrote on shard 0 holds what T2 left there (so
+/// the shards are not split between T2 applied on shard 1 and discarded on shard 0); clause (d)
+/// every other key of the aborted T1 is exactly its pre-image, on both shards. Only rounds where
+/// both `TxParticipant::commit(T2)` reported success are judged for (c').
+fn burst_rollback_other_commit_case(case_seed: u64, rep: &mut Report) {
+    use std::sync::atomic::{AtomicBool, AtomicU64, AtomicU8, Ordering::SeqCst};
+    let mut rng = Rng::new(case_seed);
+    let p0 = Arc::new(TxParticipant::new(TensorStore::new()));
+    let p1 = Arc::new(TxParticipant::new(TensorStore::new()));
+    let rounds = 120u64;
+    let (mut done, mut committed, mut refused_first, mut granted_during, mut granted_after, mut never_granted) = (0u64, 0u64, 0u64, 0u64, 0u64, 0u64);
+    let (mut by_abort, mut by_dup_abort, mut by_sweep, mut t2_deletes, mut keys_checked) = (0u64, 0u64, 0u64, 0u64, 0u64);
+    let bytes_tensor = |tag: &str| {
+        let mut d = TensorData::new();
+        d.set("data", TensorValue::Scalar(ScalarValue::Bytes(tag.as_bytes().to_vec())));
+        d
+    };
+    for it in 0..rounds {
+        done += 1;
+        let t1 = case_seed.wrapping_mul(8192).wrapping_add(2 * it + 1);
+        let t2 = t1 + 1;
+        let nkeys = 40 + rng.below(260);
+        let pad = [64usize, 512, 2048][rng.below(3)];
+        let key = |j: usize| format!("q{}k{}", it, j);
+        // pre-image of T1's keys on shard 0: all there / none there / mixed
+        let pre_kind = rng.below(4); // 0 none, 1 mixed, 2-3 all
+        let mut pre: Vec<Option<String>> = Vec::with_capacity(nkeys);
+        for j in 0..nkeys {
+            let there = match pre_kind {
+                0 => false,
+                1 => rng.bool(),
+                _ => true,
+            };
+            if there {
+                let mut tag = format!("init:{}:{}:", it, j);
+                tag.extend(std::iter::repeat('.').take(pad));
+                let _ = p0.store().put(key(j), bytes_tensor(&tag));
+                pre.push(Some(tag));
+            } else {
+                pre.push(None);
+            }
+        }
+        let ops1: Vec<Transaction> = (0..nkeys)
+            .map(|j| {
+                if rng.chance(1, 8) {
+                    Transaction::Delete { key: key(j) }
+                } else {
+                    Transaction::Put { key: key(j), data: format!("t1:s0:{}:{}", it, j).into_bytes() }
+                }
+            })
+            .collect();
+        let ops1_s1 = vec![Transaction::Put { key: format!("a{}", it), data: format!("t1:s1:{}", it).into_bytes() }];
+        if !matches!(p0.prepare(prepare_request(t1, &ops1)), PrepareVote::Yes { .. }) || !matches!(p1.prepare(prepare_request(t1, &ops1_s1)), PrepareVote::Yes { .. }) {
+            let _ = p0.abort(t1);
+            let _ = p1.abort(t1);
+            continue;
+        }
+        // T2 on shard 0: 1-3 of T1's keys — those T1 lists first (rolled back last), last, or random ones
+        let n2 = 1 + rng.below(3).min(nkeys - 1);
+        let pick = rng.below(4); // 0-1 first, 2 last, 3 random
+        let mut idx: Vec<usize> = match pick {
+            0 | 1 => (0..n2).collect(),
+            2 => (0..n2).map(|j| nkeys - 1 - j).collect(),
+            _ => (0..n2).map(|_| rng.below(nkeys)).collect(),
+        };
+        idx.sort();
+        idx.dedup();
+        let ops2: Vec<Transaction> = idx
+            .iter()
+            .map(|&j| {
+                if pre[j].is_some() && rng.chance(1, 4) {
+                    t2_deletes += 1;
+                    Transaction::Delete { key: key(j) }
+                } else {
+                    Transaction::Put { key: key(j), data: format!("t2:s0:{}:{}", it, j).into_bytes() }
+                }
+            })
+            .collect();
+        let ops2_s1 = vec![Transaction::Put { key: format!("b{}", it), data: format!("t2:s1:{}", it).into_bytes() }];
+        let yes_s1 = matches!(p1.prepare(prepare_request(t2, &ops2_s1)), PrepareVote::Yes { .. });
+        // the first delivery of T2's PREPARE to shard 0 arrives while T1 holds the keys
+        let mut yes_s0 = matches!(p0.prepare(prepare_request(t2, &ops2)), PrepareVote::Yes { .. });
+        if !yes_s0 {
+            refused_first += 1;
+        }
+        // how T1 is rolled back on shard 0
+        let how = [0usize, 0, 0, 0, 0, 1, 1, 2][rng.below(8)]; // 0 ABORT, 1 two duplicates of ABORT, 2 stale sweep then ABORT
+        match how {
+            0 => by_abort += 1,
+            1 => by_dup_abort += 1,
+            _ => by_sweep += 1,
+        }
+        let rollers = if how == 1 { 2 } else { 1 };
+        let bar = Arc::new(std::sync::Barrier::new(rollers + 1));
+        let rollers_done = AtomicU64::new(0);
+        let t2_state = AtomicU8::new(if yes_s0 { 3 } else { 0 }); // 0 never granted, 1 granted while the rollback ran, 2 granted after it returned, 3 granted at once
+        let (ok0, ok1) = (AtomicBool::new(false), AtomicBool::new(false));
+        std::thread::scope(|sc| {
+            for _ in 0..rollers {
+                let (p0, bar, rollers_done) = (p0.clone(), bar.clone(), &rollers_done);
+                sc.spawn(move || {
+                    bar.wait();
+                    if how == 2 {
+                        let _ = p0.cleanup_stale(Duration::ZERO);
+                    }
+                    let _ = p0.abort(t1);
+                    rollers_done.fetch_add(1, SeqCst);
+                });
+            }
+            {
+                let (p0, p1, bar, ops2, rollers_done, t2_state, ok0, ok1) = (p0.clone(), p1.clone(), bar.clone(), &ops2, &rollers_done, &t2_state, &ok0, &ok1);
+                let granted_at_once = yes_s0;
+                sc.spawn(move || {
+                    bar.wait();
+                    let mut granted = granted_at_once;
+                    let mut tries_after = 0;
+                    while !granted {
+                        let finished = rollers_done.load(SeqCst) == rollers as u64;
+                        if matches!(p0.prepare(prepare_request(t2, ops2)), PrepareVote::Yes { .. }) {
+                            t2_state.store(if finished { 2 } else { 1 }, SeqCst);
+                            granted = true;
+                            break;
+                        }
+                        if finished {
+                            // the statement does not say when a refused PREPARE must be granted: give up
+                            tries_after += 1;
+                            if tries_after > 3 {
+                                break;
+                            }
+                        }
+                        std::hint::spin_loop();
+                    }
+                    if granted && yes_s1 {
+                        // every participant voted yes: the decision is COMMIT, delivered to both shards
+                        if p0.commit(t2).success {
+                            ok0.store(true, SeqCst);
+                        }
+                        if p1.commit(t2).success {
+                            ok1.store(true, SeqCst);
+                        }
+                    }
+                });
+            }
+        });
+        // quiescent from here on
+        let st = t2_state.load(SeqCst);
+        yes_s0 = st != 0;
+        match st {
+            1 => granted_during += 1,
+            2 => granted_after += 1,
+            0 => never_granted += 1,
+            _ => {}
+        }
+        // T1's ABORT reaches both shards (on shard 0 once more)
+        let _ = p0.abort(t1);
+        let _ = p1.abort(t1);
+        let t2_committed = ok0.load(SeqCst) && ok1.load(SeqCst);
+        if !(yes_s0 && yes_s1) {
+            // T2 did not get every vote: its decision is ABORT
+            let _ = p0.abort(t2);
+            let _ = p1.abort(t2);
+        }
+        let read = |p: &TxParticipant, k: &str| p.store().get(k).ok().map(|d| tag_of(&d));
+        let short = |v: &Option<String>| v.as_ref().map(|s| s.chars().take(32).collect::<String>());
+        let how_name = ["ABORT(T1)", "two duplicates of ABORT(T1)", "the stale sweep, then ABORT(T1)"][how];
+        let st_name = match st {
+            1 => "granted while the rollback ran",
+            2 => "granted after the rollback returned",
+            3 => "granted at once",
+            _ => "never granted",
+        };
+        let setting = format!(
+            "round {}: T1 prepared on shard 0 ({} keys, pre-images {} of {} bytes) and shard 1, decision ABORT, rolled back on shard 0 by {}; meanwhile T2 ({:?}) was re-delivered to shard 0 ({}), had the yes of shard 1, decision COMMIT, commit acknowledged by shard 0: {}, by shard 1: {}",
+            it, nkeys, ["absent", "mixed", "present", "present"][pre_kind], pad, how_name,
+            ops2.iter().map(op_name).collect::<Vec<_>>(), st_name, ok0.load(SeqCst), ok1.load(SeqCst)
+        );
+        let mut bad = false;
+        let mut t2_keys: BTreeSet<usize> = BTreeSet::new();
+        if t2_committed {
+            committed += 1;
+            // (c') what the committed T2 left on shard 0 is still there
+            for (&j, op) in idx.iter().zip(ops2.iter()) {
+                t2_keys.insert(j);
+                keys_checked += 1;
+                let want = effect(op).and_then(|e| e.1);
+                let have = read(&p0, &key(j));
+                if have != want {
+                    rep.violation(
+                        "threaded:committed-write-lost:other-tx-rolled-back-concurrently",
+                        format!(
+                            "{}; shard 1 holds T2's write ({:?}) but on shard 0 key {:?} (#{} of T1's keys) holds {:?} instead of what T2 left ({:?}); its pre-image was {:?}",
+                            setting, short(&read(&p1, &format!("b{}", it))), key(j), j, short(&have), short(&want), short(&pre[j])
+                        ),
+                        json!({"mode": "burst-rollback-other-commit", "case_seed": case_seed}),
+                    );
+                    bad = true;
+                    break;
+                }
+            }
+            if !bad && read(&p1, &format!("b{}", it)).as_deref() != Some(&format!("t2:s1:{}", it)) {
+                rep.violation(
+                    "threaded:committed-write-lost:other-tx-rolled-back-concurrently",
+                    format!("{}; shard 1 does not hold T2's write: {:?}", setting, short(&read(&p1, &format!("b{}", it)))),
+                    json!({"mode": "burst-rollback-other-commit", "case_seed": case_seed}),
+                );
+                bad = true;
+            }
+        } else if (ok0.load(SeqCst) || ok1.load(SeqCst)) && how != 2 {
+            // one shard refused the COMMIT of a transaction it voted yes for and nobody aborted:
+            // clause (c). (Not judged with the stale sweep, whose zero timeout is the harness's.)
+            rep.violation(
+                "threaded:committed-tx-not-applied-on-yes-voter:other-tx-rolled-back-concurrently",
+                setting.clone(),
+                json!({"mode": "burst-rollback-other-commit", "case_seed": case_seed}),
+            );
+            bad = true;
+        } else if ok0.load(SeqCst) || ok1.load(SeqCst) {
+            for &j in &idx {
+                t2_keys.insert(j);
+            }
+        }
+        // (d) the aborted T1 (and an aborted T2) left everything else as it was
+        if !bad {
+            for j in 0..nkeys {
+                if t2_keys.contains(&j) {
+                    continue;
+                }
+                keys_checked += 1;
+                let have = read(&p0, &key(j));
+                if have != pre[j] {
+                    rep.violation(
+                        "threaded:key-of-non-committed-tx-differs-from-pre-image:rollback-concurrent-with-other-tx",
+                        format!("{}; shard 0 key {:?} (#{} of T1's keys, not written by a committed transaction) holds {:?}, pre-image {:?}", setting, key(j), j, short(&have), short(&pre[j])),
+                        json!({"mode": "burst-rollback-other-commit", "case_seed": case_seed}),
+                    );
+                    bad = true;
+                    break;
+                }
+            }
+            let a = read(&p1, &format!("a{}", it));
+            if !bad && a.is_some() {
+                rep.violation(
+                    "threaded:write-visible-without-commit-decision:aborted",
+                    format!("{}; shard 1 key \"a{}\" holds {:?} written by the aborted T1", setting, it, short(&a)),
+                    json!({"mode": "burst-rollback-other-commit", "case_seed": case_seed}),
+                );
+                bad = true;
+            }
+        }
+        if bad {
+            break;
+        }
+    }
+    rep.count("threaded:rollback-vs-other-commit-rounds", done);
+    rep.count("threaded:rollback-vs-other-commit-committed", committed);
+    rep.count("threaded:rollback-vs-other-commit-prepare-refused-while-t1-held-keys", refused_first);
+    rep.count("threaded:rollback-vs-other-commit-granted-while-rollback-ran", granted_during);
+    rep.count("threaded:rollback-vs-other-commit-granted-after-rollback", granted_after);
+    rep.count("threaded:rollback-vs-other-commit-never-granted", never_granted);
+    rep.count("threaded:rollback-vs-other-commit-by-abort", by_abort);
+    rep.count("threaded:rollback-vs-other-commit-by-duplicate-aborts", by_dup_abort);
+    rep.count("threaded:rollback-vs-other-commit-by-stale-sweep", by_sweep);
+    rep.count("threaded:rollback-vs-other-commit-deletes-by-t2", t2_deletes);
+    rep.count("threaded:rollback-vs-other-commit-keys-compared", keys_checked);
+    rep.eval(case_seed ^ 0xC0D, committed > 0);
+}
+
 /// `c03 witness-race`: two duplicates of PREPARE(T1) and an ABORT(T1) handled at the same time by
 /// one participant, repeated until the participant is left with a prepared entry for T1 whose key
 /// lock is gone; then the consequence is played out sequentially. No oracle involved.
@@ -1920,6 +2202,13 @@ fn main() {
                     break;
                 }
             }
+        } else if rp["mode"].as_str() == Some("burst-rollback-other-commit") {
+            for _ in 0..50 {
+                burst_rollback_other_commit_case(seed, &mut total);
+                if total.violations_total > 0 {
+                    break;
+                }
+            }
         } else if rp["mode"].as_str() == Some("burst") {
             for _ in 0..50 {
                 burst_case(seed, &mut total);
@@ -1969,6 +2258,9 @@ fn main() {
             let n = args.extra_u64("burst-other-prepare-cases", args.by_tier(12, 200));
             let rep = par_cases((args.threads / 4).max(1), args.seed ^ 0x7D, n, args.budget(10, 60), |_i, s, r| burst_other_prepare_case(s, r));
             total.merge(rep);
+            let n = args.extra_u64("burst-rollback-other-commit-cases", args.by_tier(16, 400));
+            let rep = par_cases((args.threads / 4).max(1), args.seed ^ 0x7E, n, args.budget(10, 90), |_i, s, r| burst_rollback_other_commit_case(s, r));
+            total.merge(rep);
         }
     }
 
@@ -2003,12 +2295,12 @@ fn main() {
             ]);
         }
         if mode == "both" || mode == "threaded" {
-            floors.extend([("threaded_cases", 40u64), ("threaded:decided:commit", 15), ("threaded:decided:abort", 20), ("threaded:same-tx-burst-rounds-with-later-commit", 100), ("threaded:prepare-vs-commit-bursts-committed", 200), ("threaded:prepare-vs-commit-leftover-entries-swept", 20), ("threaded:other-prepare-vs-commit-committed", 200)]);
+            floors.extend([("threaded_cases", 40u64), ("threaded:decided:commit", 15), ("threaded:decided:abort", 20), ("threaded:same-tx-burst-rounds-with-later-commit", 100), ("threaded:prepare-vs-commit-bursts-committed", 200), ("threaded:prepare-vs-commit-leftover-entries-swept", 20), ("threaded:other-prepare-vs-commit-committed", 200), ("threaded:rollback-vs-other-commit-committed", 200), ("threaded:rollback-vs-other-commit-prepare-refused-while-t1-held-keys", 200)]);
         }
     }
     let meta = Meta {
         property: "C03",
-        rule: "one evaluation = one complete schedule (sim: seeded message-level schedule over 1 real coordinator, 2-3 real participants, 1-3 transactions, <=4 keys per shard, run to quiescence; threaded: one run of 1-4 transaction threads plus 1-2 chaos threads on shared objects). Distinct by the hash of the executed event trace (sim) / the case seed (threaded); non-trivial if at least one transaction reached a decision and the schedule contained a fault (loss, duplication, rejected vote, retransmission, timeout sweep) or more than one transaction.",
+        rule: "one evaluation = one complete schedule (sim: seeded message-level schedule over 1 real coordinator, 2-3 real participants, 1-3 transactions, <=4 keys per shard, run to quiescence; threaded: one run of 1-4 transaction threads plus 1-2 chaos threads on shared objects; burst parts: one case = 120-1500 rounds of one barrier-released message race on a participant, judged at quiescence after every round). Distinct by the hash of the executed event trace (sim) / the case seed (threaded); non-trivial if at least one transaction reached a decision and the schedule contained a fault (loss, duplication, rejected vote, retransmission, timeout sweep) or more than one transaction.",
         assumptions: vec![
             "participant key locks keep their 30 s default expiry, which never fires within a case".into(),
             "a timeout event = sleep 1.1 ms + cleanup_timeouts() with prepare_timeout_ms = 0; the list it returns is the observation, the clock is not judged".into(),
@@ -2017,6 +2309,7 @@ fn main() {
             "walfault part: the participants do not crash; messages in flight survive the coordinator crash; a vote counts as accepted only if the coordinator recorded it (with a log, record_vote answers Ok(None) without recording when the vote cannot be logged); transactions restored as Prepared keep the 5 s default timeout, which never fires within a case".into(),
             "persist part: the coordinator's state is saved after every event (write-through), so a restart never sees stale state; the prepare timeout is 12 ms there and outages / pauses are real sleeps of 17 / 35 ms — what the coordinator then decides is observed, the clock is not judged; a participant's persisted protocol state (keys _dtx:*) is not shard data".into(),
             "a vote is attributed to the shard that produced it; a shard outside the participant list that receives a mis-routed PREPARE answers like any other, and its vote is not a participant's vote: commit still needs an accepted yes of every participant".into(),
+            "rollback-vs-other-commit burst part: the harness plays the coordinator for two transactions on two participants (T1: decision ABORT after both shards voted yes; T2: decision COMMIT only after both shards voted yes, its PREPARE for the contended shard being re-delivered until granted); judged at quiescence only: keys written by T2 on a shard that acknowledged COMMIT(T2) hold what T2 left, every other key T1 touched equals its pre-image; when a refused PREPARE is granted is not judged".into(),
             "threaded final-state clause: a key written by committed-and-applied transactions must hold what one of them left (order between them not judged); sound because a transaction's undo image is captured and re-applied under its own key lock".into(),
         ],
         floors,
